@@ -16,8 +16,9 @@
 
    Quirks kept: a keyword directly before the cursor is not a primary unless an identifier character
    follows; [_find_last_non_space_char] stops ON a newline; the relative-import test [from .x]; a string
-   start is the previous occurrence of the same quote character; when the cursor follows white space the
-   split still looks for a dot before the previous word (the source of [split_after_space_refuted]).
+   start is the previous occurrence of the same quote character.  Two former quirks are gone from the code
+   and from this model (repo commits faeb634, 2b4039e): after a blank nothing is split off the previous
+   word, and a keyword-spelled word directly after a dot is an attribute name.
    Python's negative indices: [code[-1]] is the last character of the text ([lastc]); the one place where
    the algorithm would go on with a negative offset after finding that character to be a dot yields
    [None] (outside the model; counted by the harness). *)
@@ -91,12 +92,23 @@ Section Finder.
   (* the character a Python index expression code[k] reads when the boundary k+1 is [l]: code[-1] for k = -1 *)
   Definition at_ (l : list N) : N := match l with c :: _ => c | [] => lastc end.
 
-  (* "from" ends at the head of l (code[k-3 : k+1] == "from"); a slice that would start at a negative
-     index is treated as different *)
+  (* the word "from" ends at the head of l: code[k-3 : k+1] == "from" and (k < 4 or code[k-4] is no identifier
+     character); a slice that would start at a negative index is treated as different *)
   Definition ends_from (l : list N) : bool :=
     match l with
-    | 109%N :: 111%N :: 114%N :: 102%N :: _ => true
+    | 109%N :: 111%N :: 114%N :: 102%N :: rest =>
+        match rest with
+        | [] => true
+        | c :: _ => negb (is_id_char c)
+        end
     | _ => false
+    end.
+
+  (* _follows_dot(s) for a start offset s: the last non-blank character before s (same line) is a dot *)
+  Definition follows_dot (a : pos) : bool :=
+    match fst (last_non_space (fst a) (snd a)) with
+    | d :: _ => N.eqb d ch_dot
+    | [] => false
     end.
 
   (* The finders take the boundary k+1 of the character offset k they are called with and return a boundary
@@ -175,6 +187,7 @@ Section Finder.
                       | None => None
                       | Some a =>
                           if negb (is_id_char d && is_kw (word_before (fst p) [])) || oc_is is_id_char (snd p)
+                             || follows_dot a
                           then Some a else Some last_atom
                       end
                     else Some last_atom
@@ -277,6 +290,11 @@ Definition split_in (kws : list text) (code raw : text) (o : N) : option (text *
     match before with
     | [] => None
     | ce :: _ =>
+        (* nothing is being typed after a blank; only a dot before the blanks continues an expression.  (The
+           code computes both starts first; they have no effect on this answer.) *)
+        if is_space ce && negb (oc_is (N.eqb ch_dot) (hd_error (fst (last_non_space before nx))))
+        then Some ([], [], o)
+        else
         match atom_start kws lastc fuel before nx, primary_start kws lastc fuel before nx with
         | Some wsp, Some rsp =>
             let ws := plen wsp in
